@@ -430,6 +430,13 @@ PROPS["C03"]["claim"] += (" ROUND TRIP WITH DISCOVERED DEPENDENCIES (build_after
     "record = manifest of the tree now + its current dependency names) through Work::run by runLoop_done; record_finished with reported "
     "dependencies (recordFinished_gen); start-up re-attaches exactly that record (applyLog_spec).")
 PROPS["C02"]["claim"] += (" done_steps_are_settled_with_depfiles: the same invariant at the end of every successful run::build, discovered dependencies included.")
+PROPS["C02"]["claim"] += (" ALSO AFTER A FAILED BUILD (done_steps_are_settled_also_after_a_failed_build; Lemmas/SchedDone2 runLoop_done_ok / build_done_or_failed): "
+    "the invariant holds at every ordinary end of run::build - success, a failed command, an exhausted -k budget, an interruption.")
+PROPS["C05"]["claim"] += (" NEVER RECORDED (failed_command_is_never_recorded): in any invocation ending in success or ordinary failure, no record "
+    "appended to the log is attributed to a step that is not Done at the end (Failed, running, waiting).")
+PROPS["C03"]["claim"] += (" AFTER A FAILED BUILD (completed_steps_are_up_to_date_next_time; next_startup_upToDate): every non-phony step that was Done when "
+    "an invocation stopped (success or ordinary failure) and whose files exist is UpToDate in the next invocation's freshly loaded environment, "
+    "so what a failed build completed is not redone.")
 PROPS["C03"]["claim"] += (" REFLECTION (settled_world_is_left_alone, Lemmas/WorldReflect): the decidable predicate the monitor settledAfterSuccess evaluates "
     "on the world the real n2 left behind (World.settledC = World.settled + a closedness check of the computed closure) IMPLIES the hypothesis of "
     "repeated_build_does_nothing - so every world on which the monitor said 'settled' (evidence: driver.settledStates) is one for which it is proved "
